@@ -191,14 +191,6 @@ func (c *client) Execute(
 	if c.atpVersion > 1 {
 		// Wrap it in a runtime message.
 		workStartMsg = RuntimeMessage{RunID: stepData.RunID, MessageID: MessageTypeWorkStart, MessageData: workStartMsg}
-		// Handle signals to the step
-		if signalsToStep != nil {
-			c.wg.Add(1)
-			go func() {
-				defer c.wg.Done()
-				c.executeWriteLoop(stepData.RunID, signalsToStep)
-			}()
-		}
 		// Setup channels for ATP v2
 		err := c.prepareResultChannels(cborReader, stepData, signalsFromStep)
 		if err != nil {
@@ -210,6 +202,15 @@ func (c *client) Execute(
 		return NewErrorExecutionResult(fmt.Errorf("failed to write work start message (%w)", err))
 	}
 	c.logger.Debugf("Step '%s' started, waiting for response...", stepData.ID)
+	if c.atpVersion > 1 && signalsToStep != nil {
+		// Handle signals to the step. Started only after the work start message is on the wire: the server
+		// rejects a signal for a run ID it has not seen yet, so a signal overtaking the work start would be lost.
+		c.wg.Add(1)
+		go func() {
+			defer c.wg.Done()
+			c.executeWriteLoop(stepData.RunID, signalsToStep)
+		}()
+	}
 
 	return c.getResult(stepData, cborReader)
 }
